@@ -1,5 +1,23 @@
 // native replay driver (copied to src/bin/verif_replay.rs of the scratch copy)
 use happylock::verif_harness as vh;
+use std::alloc::{GlobalAlloc, Layout, System};
+use std::sync::atomic::{AtomicIsize, Ordering};
+
+// counts live heap allocations so that a leak found symbolically can be confirmed natively
+struct Counting;
+static LIVE: AtomicIsize = AtomicIsize::new(0);
+unsafe impl GlobalAlloc for Counting {
+	unsafe fn alloc(&self, l: Layout) -> *mut u8 {
+		LIVE.fetch_add(1, Ordering::Relaxed);
+		System.alloc(l)
+	}
+	unsafe fn dealloc(&self, p: *mut u8, l: Layout) {
+		LIVE.fetch_sub(1, Ordering::Relaxed);
+		System.dealloc(p, l)
+	}
+}
+#[global_allocator]
+static A: Counting = Counting;
 
 fn main() {
 	let args: Vec<String> = std::env::args().collect();
@@ -24,8 +42,12 @@ fn main() {
 			std::process::exit(5);
 		}
 	};
+	println!("START");
+	let before = LIVE.load(Ordering::Relaxed);
 	let r = std::panic::catch_unwind(f);
+	let after = LIVE.load(Ordering::Relaxed);
 	println!("OUTCOME {}", if r.is_ok() { "return" } else { "unwound" });
+	println!("LIVE-ALLOCS {}", after - before);
 	vh::env::eng::dump();
 	std::mem::forget(r);
 }
